@@ -189,7 +189,8 @@ def single_funnel(ctx):
                and len(q.guards(c)) == 1, 'announce_done must be in finally, exactly under `if self._is_final`')
     if not q.find_calls(f, 'announce_done'):
         ctx.ob(f, 'announce_done() in finally', False, 'the final task no longer announces done')
-    dc = [c for c, r in q.calls_in(ctx, f) if r.kind == 'open' and r.ext == 'done_callback']
+    dc = [c for c, r in q.calls_in(ctx, f) if r.kind == 'open' and isinstance(q.in_loop(c), ast.For) and norm(q.in_loop(c).iter) == 'self._done_callbacks'
+          and isinstance(c.func, ast.Name) and c.func.id == norm(q.in_loop(c).target)]
     ctx.ob(f, 'done callbacks run in finally', bool(dc) and all(any(field == 'finalbody' for _, field in q.enclosing_trys(c)) for c in dc),
            'task done-callbacks (invoker decrement, final IO task) must run whatever happens')
     base = ctx.cls('tasks.Task')
@@ -353,6 +354,17 @@ def bounded_retry(ctx):
         ctx.ob(f, c, inside, 'this get_object is not inside a recognised bounded retry loop (stream errors would be fatal or retried without bound)')
 
 
+def on_queued_calls(ctx, f):
+    """Calls of the loop variable of a for-loop over get_callbacks(..., 'queued')."""
+    out = []
+    for c, r in q.calls_in(ctx, f):
+        lp = q.in_loop(c)
+        if r.kind == 'open' and isinstance(lp, ast.For) and isinstance(c.func, ast.Name) and c.func.id == norm(lp.target) and \
+                q.derives_from(f, lp.iter, lambda n: isinstance(n, ast.Call) and (dotted(n.func) or '').endswith('get_callbacks') and len(n.args) > 1 and norm(n.args[1]) == "'queued'"):
+            out.append(c)
+    return out
+
+
 @rule('C03.e', ['C03', 'C05', 'C08'], floor=4)
 def submission_failures_recorded_and_announced(ctx):
     """SubmissionTask._main: the try covers set_status_to_queued, the on_queued loop,
@@ -363,6 +375,8 @@ def submission_failures_recorded_and_announced(ctx):
     ctx.need(trys, 'SubmissionTask._main has no try')
     for what in ('set_status_to_queued', 'on_queued_callback', 'set_status_to_running', '_submit'):
         cs = [c for c in own_calls(f.node) if (dotted(c.func) or '').split('.')[-1] == what]
+        if what == 'on_queued_callback':
+            cs = on_queued_calls(ctx, f)
         ok = bool(cs)
         for c in cs:
             fr = q.enclosing_trys(c)
